@@ -46,8 +46,8 @@ SPECTRA = {
 
 
 def bounds(tier):
-    return {"n": ("1..8" if tier == "quick" else "1..12") + " (n>6: <=4 distinct eigenvalues, commuting preconditioners)", "spectra": list(SPECTRA),
-            "U": ["I", "householder", "dft"], "b": ["e1", "ones", "Uones", "complex"], "x0": ["zero", "(1+i)ones"],
+    return {"n": ("1..8" if tier == "quick" else "1..16 (n > 12: two unitary families)") + " (n>6: <=4 distinct eigenvalues, commuting preconditioners)", "spectra": list(SPECTRA),
+            "U": ["I", "householder", "dft"] + (["3 complex Householder reflections", "householder*dft"] if tier == "thorough" else []), "b": ["e1", "ones", "Uones", "complex"], "x0": ["zero", "(1+i)ones"],
             "P": ["none", "jacobi", "commuting", "hpd"], "A as": ["MatMul", "function"], "max_iter": ["0", "1", "2", "n", "n+2"],
             "tol": [0, 1e-3], "breakdown": ["indefinite", "negative-definite", "singular PSD"],
             "composite A": ["M.H*M + I/4", "M.N + I/4", "I/4 + M.H*M", "I/4 + M.N", "M.H*M/2 + M.H*M/2 + I/4"], "derived operators": ["none", "A+mu I, A-A, Add([A,A]) built before the solve", "... after the first update"],
@@ -57,14 +57,16 @@ def bounds(tier):
 def gen_cases(tier, seed):
     T = tier == "thorough"
     cases = []
-    ns = range(1, 13) if T else range(1, 9)
+    ns = range(1, 17) if T else range(1, 9)
     for n in ns:
         for sp_name in SPECTRA:
             if n > 6 and sp_name in ("geom100", "geom1000"):
                 continue
             if n == 1 and sp_name != "single":
                 continue
-            for U in ("I", "householder", "dft"):
+            for U in (("I", "householder", "dft", "chouse0", "chouse1", "chouse2", "hd") if T else ("I", "householder", "dft")):
+                if n > 12 and U not in ("dft", "chouse1"):
+                    continue
                 for bname in ("e1", "ones", "Uones", "complex"):
                     for x0 in ("zero", "ones"):
                         for P in ("none", "jacobi", "commuting", "hpd"):
@@ -126,6 +128,14 @@ def unitary(name, n):
         v = np.arange(1, n + 1, dtype=float)
         v = v / np.linalg.norm(v)
         return (np.eye(n) - 2 * np.outer(v, v)).astype(complex)
+    if name.startswith("chouse"):
+        # complex Householder reflections with different generating vectors (thorough tier): Hermitian, non-real systems
+        j = int(name[6:] or 0)
+        v = np.cos(np.arange(1, n + 1) * (0.7 + j)) + 1j * np.sin(np.arange(1, n + 1) * (1.3 + 0.5 * j))
+        v = v / np.linalg.norm(v)
+        return np.eye(n, dtype=complex) - 2 * np.outer(v, v.conj())
+    if name == "hd":
+        return unitary("householder", n) @ unitary("dft", n)
     k = np.arange(n)
     return np.exp(-2j * np.pi * np.outer(k, k) / n) / np.sqrt(n)
 
@@ -136,7 +146,7 @@ def instance(case):
     w = np.array(SPECTRA[case["spectrum"]](n), dtype=float)
     A = (U * w) @ U.conj().T
     A = (A + A.conj().T) / 2
-    if case["U"] != "dft":
+    if case["U"] in ("I", "householder"):
         A = A.real.astype(complex)
     b = {"e1": np.eye(n)[0].astype(complex), "ones": np.ones(n, complex),
          "Uones": U @ np.ones(n, complex),
